@@ -284,7 +284,8 @@ def _gen_cargo(orig_toml, crate_dir, pkg):
     # drop packaging metadata
     s = re.sub(r"(?ms)^\[package\.metadata\.deb\].*?(?=^\[|\Z)", "", s)
     s += "\n[workspace]\n\n[[bin]]\nname = \"%s\"\npath = \"src/main.rs\"\n" % pkg
-    s += "\n[lints.rust]\nunexpected_cfgs = { level = \"allow\" }\n"
+    if "[lints.rust]" not in s:
+        s += "\n[lints.rust]\nunexpected_cfgs = { level = \"allow\" }\n"
     return s
 
 
@@ -502,6 +503,11 @@ class Check:
                       open(replay_path, "w"), indent=1, default=str)
             print(f"VIOLATION property={self.id} replay={replay_path} no-failing-input-found")
             rc = 1
+        if rc == 0:
+            try:
+                os.unlink(os.path.join(REPLAY, f"{self.id}-{self.tier}.json"))
+            except OSError:
+                pass
         cov = {
             "obligations": max(self.obligations, 1),
             "discharged": self.discharged if not (self.broken and self.discharged == self.obligations and any(b['kind'] in ('theorem','axioms','forbidden') for b in self.broken)) else 0,
